@@ -1247,11 +1247,12 @@ def rule_codeobject(ctx):
         if isinstance(n, ast.JoinedStr):
             parts = n.values
             for i, p in enumerate(parts):
-                if isinstance(p, ast.FormattedValue) and isinstance(p.value, ast.Call) and isinstance(p.value.func, ast.Attribute) and p.value.func.attr == 'bit_length' \
-                        and isinstance(p.value.func.value, ast.Name) and i > 0 and isinstance(parts[i - 1], ast.Constant):
+                if isinstance(p, ast.FormattedValue) and i > 0 and isinstance(parts[i - 1], ast.Constant) and isinstance(parts[i - 1].value, str):
+                    # `name : {<width expression>}` - the width expression names the maximum it is computed from (the form of the expression is checked by C25-COVER)
                     m = re.search(r'(\w+)\s*:\s*$', parts[i - 1].value)
-                    if m:
-                        fields.append((m.group(1), p.value.func.value.id))
+                    names = [x.id for x in ast.walk(p.value) if isinstance(x, ast.Name) and x.id not in ('max', 'min', 'int', 'len')]
+                    if m and names:
+                        fields.append((m.group(1), names[0]))
     if len(fields) < 5:
         raise AnalysisError('generate_codeobject_constants: only %d bit-fields found' % len(fields))
     if len(fields) != len(inits):
